@@ -8,7 +8,7 @@ import subprocess
 ROOT = os.path.dirname(os.path.dirname(os.path.abspath(__file__)))
 
 TECH = {
-    "C01": "runtime monitoring: hostile call histories in a checked (overflow/debug-assert/ub_checks) build with panic/abort/hang supervision, differential trace against the shipping-style build; thorough adds AddressSanitizer and coverage-guided fuzzing of the same case runner",
+    "C01": "runtime monitoring: hostile call histories in a checked (overflow/debug-assert/ub_checks) build with panic/abort/hang supervision, differential trace against the shipping-style build; thorough adds AddressSanitizer, valgrind memcheck and coverage-guided fuzzing of the same case runner",
     "C02": "runtime monitoring: structural invariant monitor over every returned hit (independent accent composer, sentinel-marker substitution), plus the real WASM bridge compiled natively",
     "C03": "runtime monitoring: metamorphic monitor (record must be among the hits) over systematically derived prefix queries, incl. the whole e-commerce corpus as one store",
     "C04": "runtime monitoring: metamorphic monitor over every single edit (4 kinds x every position) of every qualifying title word",
@@ -26,7 +26,7 @@ TECH = {
     "C16": "runtime monitoring: reference-model monitor (Levenshtein / unrestricted DL bounds, fresh-instance and prefix-cell comparison) through a guarded re-export, exhaustive short words + random long ones in alternating order, on shared and per-case instances; thorough adds Miri",
     "C17": "runtime monitoring: reference-model monitor (set-based Jaccard) through a guarded re-export, exhaustive short sequences + random long ones in alternating order; thorough adds Miri",
     "C18": "runtime monitoring: reference-model monitor of TrigramIndex::prepare (shared-gram counts recomputed from the public tokeniser)",
-    "C19": "sanitizers: hook assertions at every unchecked access (row/column individually), std ub_checks in a checked optimised build; thorough adds AddressSanitizer, Miri and coverage-guided fuzzing",
+    "C19": "sanitizers: hook assertions at every unchecked access (row/column individually), std ub_checks in a checked optimised build; thorough adds AddressSanitizer, valgrind memcheck, Miri and coverage-guided fuzzing",
     "C20": "runtime monitoring: history monitor of the registry API against independent per-id model stores; thorough adds the native bridge and Miri",
 }
 
@@ -88,7 +88,7 @@ def main():
             "name": "lsmon",
             "path": "/verif/harness",
             "serves_properties": [c["property_id"] for c in checks],
-            "kind_free_text": "Rust monitor harness linked against /repo/rust/core (rebuilt from the working tree on every check), sharded and supervised by the python driver ./check; build configurations: checked (debug assertions + overflow checks + hooks), ship (repo release profile, no hooks), asan, miri, fuzz",
+            "kind_free_text": "Rust monitor harness linked against /repo/rust/core (rebuilt from the working tree on every check), sharded and supervised by the python driver ./check; build configurations: checked (debug assertions + overflow checks + hooks), ship (repo release profile, no hooks), asan, vg (memcheck), miri, fuzz",
         }],
         "checks": checks,
         "notes": "Every check exits 0 (held), 1 (VIOLATION line + replay file) or 2 (INCONCLUSIVE: build failure, coverage floor missed, tool failure). Known findings: /verif/known_findings.txt.",
